@@ -1,4 +1,5 @@
 """Rules over common/src/gadgets.rs shared by C10 (no witness freedom), C30 (less-than) and C31 (sorting)."""
+import re
 from . import terms as T
 from . import pat as P
 from . import circ, cfg, guards
@@ -398,14 +399,21 @@ def analyse(ck):
                 if isinstance(k, tuple) and k[0] == "bin" and k[1] == "Mul":
                     j = k[3] if P.const_of(k[2]) == 2 else (k[2] if P.const_of(k[3]) == 2 else None)
             if j is not None:
+                # the limb position j: `for j in 0..4` (limb = d[j]) or `for (j, limb) in d.iter().enumerate()` (d is a [Target; 4])
                 rj = circ.range_expr(j[1]) if isinstance(j, tuple) and j[0] == "elem" else None
+                by_range = bool(rj) and P.const_of(rj[0]) == 0 and P.const_of(rj[1]) == 4
+                by_enum = isinstance(j, tuple) and j[0] == "index" and P.norm(j[1]) == d and re.search(r"Vec<\[[\w:]*Target; 4\]>", b.local_ty(2)) is not None
+                limb = ("idx", d, j) if by_range else (("elem", d) if by_enum else None)
                 k_hi = [k for k in w if isinstance(k, tuple) and k[1] == "Mul"]
                 k_lo = [k for k in w if isinstance(k, tuple) and k[1] == "Add"]
-                if len(k_hi) == 1 and len(k_lo) == 1 and k_lo[0] == ("bin", "Add", k_hi[0], ("c", 1, None)) and rj and P.const_of(rj[0]) == 0 and P.const_of(rj[1]) == 4:
+                if len(k_hi) == 1 and len(k_lo) == 1 and k_lo[0] == ("bin", "Add", k_hi[0], ("c", 1, None)) and limb is not None:
                     vh, vl = w[k_hi[0]], w[k_lo[0]]
                     if vh[0] == "fld" and vl[0] == "fld" and vh[1] == vl[1] and vh[2] == "1" and vl[2] == "0":
                         spc = vh[1]
-                        ok_in = P.call_name(spc) is not None and P.call_name(spc).endswith("gadgets::split_canonical_u32_halves") and P.norm(spc[4][1]) == ("idx", d, j)
+                        ok_in = P.call_name(spc) is not None and P.call_name(spc).endswith("gadgets::split_canonical_u32_halves") and P.norm(spc[4][1]) == limb
+                        # both writes happen on every iteration of the limb loop (no guard besides the loop itself)
+                        wc = T.upd_write_ctrl(ev, h)
+                        ok_in = ok_in and len(wc) == 2 and all(c and all(g[0] == "loop" and tuple(g[2]) == ("1",) for g in c) for c in wc)
     ob.add({"C31", "C10"}, ok_in, "TERM", "gadget/sort/ingress",
            "ingress: every limb j in 0..4 of every digest goes through split_canonical_u32_halves; halves[2j] = hi, halves[2j+1] = lo (most significant half first)", ing.loc if ing else loc, det)
     # compare-and-swap stores
@@ -413,24 +421,46 @@ def analyse(ck):
     ok_cas = False
     det = [(T.show(e.args[0], maxdepth=2)[:80], T.show(e.args[1], maxdepth=3)[:200], str(e.args[2])[:80]) for e in stores]
     idx_terms = None
+    def half_write(e):
+        """(nest, j, value) of one compare-and-swap store: either a per-half store `v[k][j] = value` inside the j loop, or a whole-digest
+        store `v[k] = a` of an array a whose only writes are `a[j] = value` in a j loop under no other guard (a helper returning the
+        swapped pair); the nest is the one that encloses the half write"""
+        proj, val = e.args[2], P.norm(e.args[1])
+        if len(proj) == 1 and proj[0][0] == "i":
+            return lc.Nest(e), proj[0][1], val
+        if len(proj) == 0 and isinstance(val, tuple) and val and val[0] == "upd" and len(val[3]) == 1 and lc.known_len(val) == 8:
+            (wproj, wval), = val[3]
+            ctrls = T.upd_write_ctrl(ev, val)
+            if len(wproj) == 1 and wproj[0][0] == "i" and len(ctrls) == 1 and ctrls[0] and all(c[0] == "loop" and tuple(c[2]) == ("1",) for c in ctrls[0]):
+                return lc.Nest(loops=[c[1] for c in ctrls[0]]), wproj[0][1], P.norm(wval)
+        return None
+
     if len(stores) == 2 and Vt is not None:
-        sels = [P.match(Cb("cb.select", V("f"), V("x"), V("y")), e.args[1]) for e in stores]
+        hw = [half_write(e) for e in stores]
+        sels = [P.match(Cb("cb.select", V("f"), V("x"), V("y")), h_[2]) if h_ else None for h_ in hw]
         if all(sels):
             f0, f1 = P.norm(sels[0]["f"]), P.norm(sels[1]["f"])
             if f0 == f1 and P.call_name(f0) and P.call_name(f0).endswith("gadgets::halves8_lt"):
                 L, R = P.norm(f0[4][1]), P.norm(f0[4][2])
-                pj = [e.args[2] for e in stores]
-                if len(pj[0]) == 1 and pj[0] == pj[1] and pj[0][0][0] == "i":
-                    j = pj[0][0][1]
-                    rj = circ.range_expr(j[1]) if isinstance(j, tuple) and j[0] == "elem" else None
-                    xl, xr = P.norm(fr.index(L, j)), P.norm(fr.index(R, j))
+                jv = [P.norm(h_[0].canon(h_[1])) for h_ in hw]
+                if jv[0] == jv[1] and lc.is_var(jv[0], 0, 8) and all(h_[0].has_var(jv[0]) for h_ in hw) and L != R:
                     t0, t1 = P.norm(stores[0].args[0]), P.norm(stores[1].args[0])
                     # a pointer written through also carries its own write as an update: the pointee is the base
                     t0 = P.norm(t0[2]) if (isinstance(t0, tuple) and t0[0] == "upd") else t0
                     t1 = P.norm(t1[2]) if (isinstance(t1, tuple) and t1[0] == "upd") else t1
-                    a = (P.norm(sels[0]["x"]), P.norm(sels[0]["y"]), P.norm(sels[1]["x"]), P.norm(sels[1]["y"]))
-                    ok_cas = (rj is not None and P.const_of(rj[0]) == 0 and P.const_of(rj[1]) == 8 and xl != xr
-                              and ((t0 == L and t1 == R and a == (xl, xr, xr, xl)) or (t0 == R and t1 == L and a == (xr, xl, xl, xr))))
+
+                    def at(k, base, ix):
+                        # element `ix` of a digest: reading an array that was built by indexed writes yields the alternatives of those writes
+                        return P.norm(hw[k][0].canon(fr.index(base, ix)))
+
+                    def side(k, z):
+                        c = P.norm(hw[k][0].canon(sels[k][z]))
+                        if isinstance(c, tuple) and c and c[0] == "idx":
+                            c = at(k, c[1], c[2])
+                        xl, xr = at(k, L, jv[0]), at(k, R, jv[0])
+                        return "?" if xl == xr else ("L" if c == xl else ("R" if c == xr else "?"))
+                    a = (side(0, "x"), side(0, "y"), side(1, "x"), side(1, "y"))
+                    ok_cas = (t0 == L and t1 == R and a == ("L", "R", "R", "L")) or (t0 == R and t1 == L and a == ("R", "L", "L", "R"))
                     # L = v[i], R = v[i+1]
                     idxs = [e for e in effs if e.raw.get("name") == "index_mut" and P.norm(e.args[0]) == Vt]
                     idx_terms = sorted(set(T.show(P.norm(e.args[1])) for e in idxs))
@@ -448,9 +478,10 @@ def analyse(ck):
     net_ok = False
     if stores:
         e = stores[0]
-        loops = circ.loops_of(e)
+        # the schedule loops (rounds, comparator position); the per-half loop 0..8, if the stores sit in one, is not part of the schedule
+        loops = [l for l in circ.loops_of(e) if lc.Desc(l).domain() != (0, 8)]
         cases = [c for c in e.ctrl if c[0] == "case" and c[1] != ("bin", "Le", ("len", values), ("c", 1, None))]
-        if len(loops) == 2 and len(cases) == 1:
+        if len(loops) == 1 and len(cases) == 1:
             r0 = circ.range_expr(loops[0])
             nlen = ("len", values)
             if r0 and P.const_of(r0[0]) == 0 and P.norm(r0[1]) == nlen:
@@ -465,6 +496,15 @@ def analyse(ck):
                             ini = [z for z in iv[2] if z == ("bin", "Rem", rnd, ("c", 2, None))]
                             stp = [z for z in iv[2] if isinstance(z, tuple) and z[0] == "bin" and z[1] == "Add" and P.const_of(z[3]) == 2 and isinstance(z[2], tuple) and z[2][0] in ("rec", "phi")]
                             net_ok = len(ini) == 1 and len(stp) == 1
+        elif len(loops) == 2 and not cases:
+            # the same schedule as a counted loop: for i in (round % 2 .. n - 1).step_by(2)   (i < n - 1  <=>  i + 1 < n; n >= 2 here)
+            r0 = circ.range_expr(loops[0])
+            nlen = ("len", values)
+            sb = P.norm(loops[1])
+            if r0 and P.const_of(r0[0]) == 0 and P.norm(r0[1]) == nlen and isinstance(sb, tuple) and sb[0] == "step_by" and P.const_of(sb[2]) == 2:
+                r1 = circ.range_expr(sb[1])
+                rnd = ("elem", loops[0])
+                net_ok = bool(r1) and P.norm(r1[0]) == ("bin", "Rem", rnd, ("c", 2, None)) and P.norm(r1[1]) == ("bin", "Sub", nlen, ("c", 1, None))
     ob.add({"C31"}, net_ok, "TERM", "gadget/sort/network", "odd-even transposition network: rounds 0..n, i from round % 2 in steps of 2 while i + 1 < n (n rounds sort n elements)", stores[0].loc if stores else loc,
            [circ.describe_ctrl(c) for c in (stores[0].ctrl if stores else [])])
     # egress
